@@ -20,8 +20,12 @@ MANIFEST_ENTRY = {
           "(C20_own_jump_refs_all_trees), the build equals the build into an object with empty tables and the same last "
           "instruction, relocated (C20_relocation_all_trees); outside C20-K1 it equals the build into the EMPTY object, "
           "relocated (C20_relocation_full); outside C05-K1/K2 every new jump entry lies in the new instruction range "
-          "(C20_frame_full). These are theorems about the tree compiler, which is tied to the worklist transliteration of "
-          "build() by bounded theorems and the differential run. The step 'the runtime commutes with relocation' is covered by "
+          "(C20_frame_full). These are theorems about the tree compiler; compile_agrees_full (Properties/C05.v: for EVERY node "
+          "array that forms a proper tree, every initial state and fuel, a successful run of the worklist model of build() is the "
+          "tree compiler's result) carries them to BuilderWL.build: C20_frame_full_builder, C20_own_jump_refs_builder, "
+          "C20_relocated_full_builder (a build after another program and the build of the same tree into the empty object are "
+          "related by Spec.Reloc.relocated). Only the error-class statement C20_no_foreign_jump_all_trees stays on the tree "
+          "compiler (for build() it is bounded + checked on every run). The step 'the runtime commutes with relocation' is covered by "
           "the differential runs only. On every run: sequences of 2..4 generated programs are "
           "built into one data object in every order with executions interleaved, on both data implementations; every build is "
           "compared with the build alone (relocated), with the builder model run from the same initial state, every earlier "
@@ -338,7 +342,7 @@ def run(tier, seed):
     sy = vplib.sync(["instr", "defs", "tokentypes", "execmap"])
     for name, err in sy.get("errors", {}).items():
         v.tie_failure("translator %s: %s" % (name, err))
-    pr = vplib.prove(PID, ["Proofs/C20"], extra_targets=["Extract/MultiExtract.vo"])
+    pr = vplib.prove(PID, ["Proofs/C20", "Proofs/Builder"], extra_targets=["Extract/MultiExtract.vo"])
     for f in pr["failures"]:
         v.tie_failure("prove: " + f)
     v.coverage.update(vplib.proof_coverage(
